@@ -9,14 +9,14 @@ Local Open Scope Qc_scope.
 Lemma Qc_sq_sum_zero (a b : Qc) : a * a + b * b = 0 -> a = 0 /\ b = 0.
 Proof.
   intros E. assert (E' : (this a * this a + this b * this b == 0)%Q).
-  { apply (f_equal this) in E. simpl in E.
+  { apply (f_equal this) in E. unfold Qcplus, Qcmult, Q2Qc in E. cbn [this] in E.
     assert (E0 : (Qred (Qred (this a * this a) + Qred (this b * this b)) == 0)%Q) by (rewrite E; reflexivity).
     rewrite !Qred_correct in E0. exact E0. }
-  split; apply Qc_is_canon; simpl; nra.
+  split; apply Qc_is_canon; change (this 0) with 0%Q; nra.
 Qed.
 
 Lemma Qc_sq_sum_nonneg (a b : Qc) : 0 <= a * a + b * b.
-Proof. unfold Qcle. simpl. rewrite !Qred_correct. nra. Qed.
+Proof. unfold Qcle, Qcplus, Qcmult, Q2Qc. cbn [this]. rewrite !Qred_correct. change (this 0) with 0%Q. nra. Qed.
 
 Lemma Cnorm2_zero (z : C) : Cnorm2 z = 0 -> z = C0.
 Proof. destruct z as [a b]. unfold Cnorm2. simpl. intros E. apply Qc_sq_sum_zero in E as [-> ->]. reflexivity. Qed.
@@ -61,13 +61,13 @@ Lemma C_nrm2_definite (v : list C) : @nrm2 C FldC v = C0 -> Forall (fun z => z =
 Proof.
   induction v as [|[a b] v IH]; intros E; constructor.
   - apply Cnorm2_zero. apply (f_equal fst) in E.
-    destruct (C_nrm2_fst ((a, b) :: v)) as [E1 _]. rewrite E1 in E. simpl in E.
+    destruct (C_nrm2_fst ((a, b) :: v)) as [E1 _]. pose proof (eq_trans (eq_sym E1) E) as E3. clear E E1. rename E3 into E. simpl in E.
     destruct (C_nrm2_fst v) as [E2 Hpos]. rewrite <- E2 in E.
     pose proof (Qc_sq_sum_nonneg a b) as Hn. unfold Cnorm2 in *. simpl in *.
     apply Qcle_antisym; auto.
     rewrite <- E. rewrite <- (Qcplus_0_r (a * a + b * b)) at 1. apply Qcplus_le_compat; auto. apply Qcle_refl.
   - apply IH. apply (f_equal fst) in E as E'.
-    destruct (C_nrm2_fst ((a, b) :: v)) as [E1 _]. rewrite E1 in E'. simpl in E'.
+    destruct (C_nrm2_fst ((a, b) :: v)) as [E1 _]. pose proof (eq_trans (eq_sym E1) E') as E3. clear E' E1. rename E3 into E'. simpl in E'.
     destruct (C_nrm2_fst v) as [E2 Hpos]. rewrite <- E2 in E'.
     pose proof (Qc_sq_sum_nonneg a b) as Hn. unfold Cnorm2 in *. simpl in *.
     assert (Ez : fst (@nrm2 C FldC v) = 0).
@@ -77,18 +77,18 @@ Proof.
     apply Qc_sq_sum_zero in Eab as [-> ->].
     unfold nrm2 in *. simpl in E. unfold vconj in *. simpl in E.
     destruct (vdot (map fconj v) v) as [p q] eqn:Ev. simpl in *.
-    unfold Cadd, Cmul, C0 in E. simpl in E. inversion E as [[Ep Eq]].
-    f_equal; [rewrite <- Ep | rewrite <- Eq]; ring.
+    rewrite Ev in E. apply (f_equal snd) in E. unfold Cadd, Cmul, Cconj, C0 in E. cbn [fst snd] in E.
+    unfold C0. rewrite Ez. f_equal. rewrite <- E. ring.
 Qed.
 
 #[global] Instance FldLawsC : @FldLaws C FldC.
 Proof.
   constructor.
   - exact C_field.
-  - cring.
-  - cring.
+  - intros [a b] [c d]. cbn [fconj fadd FldC]. unfold Cconj, Cadd. cbn [fst snd]. f_equal. ring.
+  - intros [a b] [c d]. cbn [fconj fmul FldC]. unfold Cconj, Cmul. cbn [fst snd]. f_equal; ring.
   - reflexivity.
-  - intros [a b]. unfold fconj; simpl. unfold Cconj. simpl. f_equal. ring.
+  - intros [a b]. cbn [fconj FldC]. unfold Cconj. cbn [fst snd]. f_equal. ring.
   - exact Cis0_spec.
   - exact C_nrm2_definite.
 Qed.
